@@ -18,13 +18,21 @@ import (
 // The rule-name pool mixes the three resolution levels: names defined for this
 // call, names registered globally in TestMain (one of which, "dir", shadows a
 // built-in in this process), built-ins, and unknown names.
-var c16Names = []string{"cfn1", "cfn2", "gcustom1", "gcustom2", "shadowed", "dir", "phone", "nosuch", "Nope"}
+var c16Names = []string{"cfn1", "cfn2", "gcustom1", "gcustom2", "shadowed", "dir", "phone", "nosuch", "Nope", "botheq=7", "exist"}
 
 func genC16Case(t *rapid.T) *StructCase {
 	callFns := []string{}
 	for _, n := range []string{"cfn1", "cfn2", "shadowed", "gcustom2", "phone"} {
 		// "shadowed"/"gcustom2" are also registered globally, "phone" is a built-in: the per-call definition must win
 		if rapid.IntRange(0, 2).Draw(t, "call-"+n) == 0 {
+			callFns = append(callFns, n)
+		}
+	}
+	for _, n := range []string{"required", "exist"} {
+		// the names the struct validator implements itself resolve like any other name:
+		// a function given for the call replaces them (in this process "botheq" is
+		// moreover registered globally)
+		if rapid.IntRange(0, 7).Draw(t, "call-"+n) == 0 {
 			callFns = append(callFns, n)
 		}
 	}
